@@ -563,9 +563,14 @@ func createIndexes(ts *Schema, ti *Info, idxs []schema.Index, store *stor.Stor) 
 	}
 	idxs = ts.SetupNewIndexes(nold)
 	ti.Indexes = slices.Clip(ti.Indexes) // copy on write
+	nlayers := 1
+	if len(ti.Indexes) > 0 {
+		// must match the existing indexes (there may be unmerged layers)
+		nlayers = ti.Indexes[0].Nlayers()
+	}
 	for range idxs {
 		bt := btree.CreateBtree(store)
-		ti.Indexes = append(ti.Indexes, index.OverlayFor(bt))
+		ti.Indexes = append(ti.Indexes, index.OverlayForN(bt, nlayers))
 	}
 }
 
